@@ -76,8 +76,20 @@ def runtime_scenarios():
 def load_env_probe(chk):
     """what does code loaded through load_script_from_string see?"""
     from .. import real
+    for prepare in ("fresh", "after clear()", "after clear() twice", "after a load and clear()"):
+        _probe_one(chk, real, prepare)
+
+
+def _probe_one(chk, real, prepare):
     yp = real.YP()
     api = set(yp.eval_context.keys())
+    if prepare == "after clear()":
+        yp.clear()
+    elif prepare == "after clear() twice":
+        yp.clear(); yp.clear()
+    elif prepare == "after a load and clear()":
+        yp.load_script_from_string(real.compile_text("tmp(a).\n"))
+        yp.clear()
     box = []
     yp.eval_context["verif_box"] = box
     # no builtin is available to the probe: it reaches its globals through a function object
@@ -92,9 +104,10 @@ def load_env_probe(chk):
     chk.evaluations += 1
     chk.validated_traces += 1
     if extra or box[1] != {}:
-        chk.violation({"kind": "loadenv", "detail": "loaded code sees %s, __builtins__ = %s" % (sorted(extra), repr(box[1])[:60]), "family": "load-env",
+        chk.violation({"kind": "loadenv", "detail": "%s: loaded code sees %s, __builtins__ = %s" % (prepare, sorted(extra), repr(box[1])[:60]), "family": "load-env",
                        "scenario": {"globals": sorted(seen)}, "features": {"op": "load", "family": "load-env"}})
-    chk.add_sample({"load_env_globals": sorted(seen), "builtins": repr(box[1])[:40]})
+    if prepare == "fresh":
+        chk.add_sample({"load_env_globals": sorted(seen), "builtins": repr(box[1])[:40]})
 
 
 def run(tier, seed):
